@@ -387,8 +387,10 @@ def run(check, tier):
     decide_many(check, [(n, c, dict(o, key=n.split("[")[0])) for n, c, o in cases(tier)],
                 timeout_s=120 if tier == "quick" else 600, validate=1, hard_timeout_s=400 if tier == "quick" else 2000)
     quick = tier == "quick"
-    jobs = [dict(fn="edges__reach", timeout=60)]
+    jobs = [dict(fn="edges__reach", timeout=60), dict(fn="edges_after_other_call__reach", timeout=60)]
     for sh in range(8):
         for wrap in (False, True):
             jobs.append(dict(fn="edges", fixed=dict(shape_sel=sh, wrap=wrap), timeout=300 if quick else 1500, key="edge_structure"))
+            jobs.append(dict(fn="edges_after_other_call", fixed=dict(shape_sel=sh, wrap=wrap), timeout=400 if quick else 1500,
+                             key="edge_structure_after_other_call"))
     run_jobs(check, "harness/c17_edges.py", jobs)
